@@ -498,3 +498,21 @@ SUBCHECKS.append(SubCheck("shared_operands", o_shared, strategy=shared_cases, ex
 SUBCHECKS.append(SubCheck("near_duplicates", o_near, strategy=near_cases, examples=(600, 3000), shards=(2, 8),
                           rule="2-4 copies of one operand with a coefficient scaled by 1+d, d in {0, 1e-9 .. 6e-7} (hash- and allclose-equal for the library, different matrices), pushed through the same operation one after another in one process: each result equals matrix arithmetic at 1e-9 relative; non-trivial = at least two different d"))
 SUBCHECKS[2].expected_classes = ["phase_table_used", "duplicate_terms", "zero_coefficient", "number_on_left", "empty_sum", "op/", "op**"]
+
+
+def _campaigns(tier):
+    import os
+
+    seed = int(os.environ.get("VERIF_SEED_EFFECTIVE", "1"))
+    for corpus in ("empty", "seeded"):
+        yield {"target": "pauli_arith", "runs": 150000, "corpus": corpus, "seed": seed, "max_len": 192}
+
+
+def o_fuzz(spec):
+    from vlib.fuzz import run_campaign
+
+    return run_campaign(spec)
+
+
+SUBCHECKS.append(SubCheck("atheris_pauli_arith", o_fuzz, enumerate=_campaigns, shards=(1, 2), tiers=("thorough",), timeout=(600, 3000),
+                          rule="coverage-guided (Atheris/libFuzzer) campaigns, empty and seeded corpus: bytes -> arithmetic tree over Pauli terms / sums / numbers -> library result vs canonical-form algebra"))
